@@ -205,6 +205,8 @@ def p_open(I, st, recv, args, kw, node):
     f._leaf, f._mode = leaf, mode   # type: ignore[attr-defined]
     if mode.startswith("w"):
         set_disk(st, get_disk(I, st).put(leaf, ("empty",)))
+    elif mode.startswith("r") and not I.in_contract:
+        I.safety(st, get_disk(I, st).exists(leaf), "file-exists", node)
     return f
 
 
@@ -292,6 +294,8 @@ def pd_read_csv(I, st, args, kw, node):
     fp = kw.get("float_precision")
     if not (isinstance(fp, VStr) and fp.text == "round_trip"):
         raise Unsupported("pd.read_csv without float_precision='round_trip' does not return the stored floats exactly")
+    if not I.in_contract:
+        I.safety(st, get_disk(I, st).exists(leaf), "file-exists", node)
     o = Opaque(z3.Const(fresh_name("df"), ObjS), "DataFrame")
     o._cols = get_disk(I, st).content(leaf, "csv", I, st)[1]   # type: ignore[attr-defined]
     return o
